@@ -296,6 +296,7 @@ pub fn run(repo: &Path, out: &Path) -> Result<(), String> {
         "word_value_tests": inv.word_value_tests,
         "pipeline_bodies": pipeline,
         "nondeterminism": uses_nondeterminism,
+        "display_unprinted": crate::display::run(repo)?,
     });
     write_if_changed(&out.join("inventory.json"), &serde_json::to_string_pretty(&cur).unwrap());
 
@@ -324,7 +325,8 @@ pub fn run(repo: &Path, out: &Path) -> Result<(), String> {
     };
     let obl = serde_json::json!({
         "C02": mk(&["panic_sites", "panic_sites_ast", "raw_access"]),
-        "C05": mk(&["err_discard"]),
+        "C01": mk(&["display_unprinted"]),
+        "C05": mk(&["err_discard", "display_unprinted"]),
         "C07": mk(&["raw_access", "no_skip_callers", "pipeline_bodies"]),
         "C08": mk(&["text_compare", "make_word_uses", "word_value_tests"]),
         "C10": mk(&["location_literals", "twl_literals", "nondeterminism", "raw_access"]),
